@@ -88,13 +88,14 @@ CHECKS["C08"] = {
 
 def c20_jobs(tier):
     jobs = []
+    # (exons, lowest offset, highest offset, longest exon); a negative lowest offset puts exons before the transcript start
     if tier == "quick":
-        shapes = [(1, 8, 4), (2, 8, 4), (3, 8, 4)]
+        shapes = [(1, 0, 8, 4), (2, 0, 8, 4), (3, 0, 8, 4), (1, -2, 3, 2), (2, -2, 4, 3)]
     else:
-        shapes = [(1, 20, 6), (2, 20, 6), (3, 20, 6), (4, 20, 6), (5, 12, 3), (6, 14, 2)]
-    for (k, maxoff, maxlen) in shapes:
+        shapes = [(1, 0, 20, 6), (2, 0, 20, 6), (3, 0, 20, 6), (4, 0, 20, 6), (5, 0, 12, 3), (6, 0, 14, 2), (1, -3, 3, 2), (2, -3, 6, 3), (3, -2, 6, 3)]
+    for (k, minoff, maxoff, maxlen) in shapes:
         jobs.append({"pkgdir": "feat/gene", "func": "VerifC20_Tiling", "math": True,
-                     "params": {"k": k, "maxoff": maxoff, "maxlen": maxlen}, "timeout_s": 600 if tier == "quick" else 3000})
+                     "params": {"k": k, "minoff": minoff, "maxoff": maxoff, "maxlen": maxlen}, "timeout_s": 600 if tier == "quick" else 3000})
     for k in ([1, 2] if tier == "quick" else [1, 2, 3, 4, 5]):
         for spare in ((0, 1, 2) if tier == "quick" else (0, 1, 2, 3)):
             jobs.append({"pkgdir": "feat/gene", "func": "VerifC20_Atomic", "math": True, "params": {"k": k, "spare": spare}})
@@ -197,8 +198,8 @@ def c10_jobs(tier):
                      "timeout_s": 500 if tier == "quick" else 3000})
     for n in ([5, 6] if tier == "quick" else [5, 6, 7, 8]):
         jobs.append({"pkgdir": "index/kmerindex", "func": "VerifC10_ForEach", "params": {"k": 4, "n": n}, "timeout_s": 1500})
-    for k in ([4, 5, 6] if tier == "quick" else [4, 5, 6, 7, 8, 9, 10]):
-        jobs.append({"pkgdir": "index/kmerindex", "func": "VerifC10_Bits", "params": {"k": k, "concretegc": 0}})
+    for k in ([4, 5, 6, 9] if tier == "quick" else [4, 5, 6, 7, 8, 9, 10, 12]):
+        jobs.append({"pkgdir": "index/kmerindex", "func": "VerifC10_Bits", "params": {"k": k, "concretegc": 0}, "floatsplit": True})
     jobs.append({"pkgdir": "index/kmerindex", "func": "VerifC10_Bits", "params": {"k": 2, "concretegc": 1}, "split_cap": 300})
     jobs.append({"pkgdir": "index/kmerindex", "func": "VerifC10_Bits", "params": {"k": 3, "concretegc": 1}, "split_cap": 300})
     return jobs
@@ -306,7 +307,11 @@ def c16_jobs(tier):
     shapes = [(2, 1, 4, 3), (2, 2, 3, 2)] if tier == "quick" else [(2, 1, 6, 4), (2, 2, 4, 3), (2, 2, 6, 4), (2, 1, 9, 6), (3, 1, 1, 1), (3, 1, 1, 2), (3, 2, 1, 1), (3, 1, 2, 1)]
     for (p, l, ms, ml) in shapes:
         jobs.append({"pkgdir": "align/pals", "func": "VerifC16_Piles", "math": True,
-                     "params": {"pairs": p, "locs": l, "maxstart": ms, "maxlen": ml}, "timeout_s": 900 if tier == "quick" else 3300})
+                     "params": {"pairs": p, "locs": l, "maxstart": ms, "maxlen": ml, "minlen": 1}, "timeout_s": 900 if tier == "quick" else 3300})
+    # zero-length features (they abut what they touch, nothing else)
+    for (p, l, ms, ml) in ([(2, 1, 4, 2)] if tier == "quick" else [(2, 1, 4, 2), (2, 2, 3, 2)]):
+        jobs.append({"pkgdir": "align/pals", "func": "VerifC16_Piles", "math": True,
+                     "params": {"pairs": p, "locs": l, "maxstart": ms, "maxlen": ml, "minlen": 0}, "timeout_s": 900 if tier == "quick" else 3300})
     return jobs
 
 
@@ -333,6 +338,9 @@ def c19_jobs(tier):
                      "sched": "sym", "preempt": pre, "timeout_s": 600 if tier == "quick" else 3000})
     for (t, b, n, pre) in ([(2, 0, 2, 2), (2, 1, 3, 1), (3, 0, 2, 1)] if tier == "quick" else [(2, 0, 2, 3), (2, 1, 3, 2), (3, 0, 3, 2), (3, 1, 2, 2)]):
         jobs.append({"pkgdir": P, "func": "VerifC19_ProcessorStop", "params": {"threads": t, "buffer": b, "nops": n},
+                     "sched": "sym", "preempt": pre, "timeout_s": 600 if tier == "quick" else 3000})
+    for (t, n, pre) in ([(1, 1, 2), (2, 1, 2), (2, 2, 1)] if tier == "quick" else [(1, 1, 3), (2, 1, 3), (2, 2, 2), (3, 2, 2), (2, 3, 1)]):
+        jobs.append({"pkgdir": P, "func": "VerifC19_ProcessorWait", "params": {"threads": t, "nops": n},
                      "sched": "sym", "preempt": pre, "timeout_s": 600 if tier == "quick" else 3000})
     for (n, t, c, pre) in ([(3, 1, 1, 1), (3, 2, 1, 1)] if tier == "quick" else [(3, 1, 1, 2), (3, 2, 1, 2), (4, 2, 2, 2), (4, 2, 1, 1)]):
         jobs.append({"pkgdir": P, "func": "VerifC19_MapFail", "params": {"n": n, "threads": t, "chunk": c}, "sched": "sym", "preempt": pre,
@@ -421,7 +429,7 @@ def _fa(func, recs, name=1, desc=0, maxwidth=3, small=0, alphabet=0, **kw):
 def c01_jobs(tier):
     jobs = []
     if tier == "quick":
-        shapes = [([0], 1, 0, 2), ([3], 2, 2, 4), ([2, 3], 1, 1, 3), ([], 1, 0, 1)]
+        shapes = [([0], 1, 0, 2), ([3], 2, 2, 4), ([2, 3], 1, 1, 3), ([], 1, 0, 1), ([0, 2], 1, 0, 2), ([1, 0], 1, 1, 2)]
     else:
         shapes = [([0], 1, 0, 2), ([3], 2, 2, 4), ([2, 3], 1, 1, 3), ([], 1, 0, 1), ([5], 1, 0, 6), ([4, 0, 2], 1, 2, 3), ([8], 2, 3, 9),
                   ([12], 2, 3, 13), ([6, 5, 4], 2, 2, 5), ([3, 3, 3, 3], 1, 1, 2), ([10, 1], 3, 4, 4),
